@@ -255,11 +255,22 @@ def check_slice_str(chk, cfg, b, what):
     neg = (eqg[0], nf.NEG[eqg[1]])
     early = [p for p in rets if gset(p.guards) == {neg} and not p.others()]
     okl = len(early) == 1 and early[0].ret == ("int", 0, "bool") and all(eqg in gset(p.guards) for p in rets + conts if p not in early)
-    chk.ob("G18", what, okl, "must return false when the byte length differs from the symbol count, before the element loop; paths: %s" % [p.describe()[:140] for p in rets][:4],
+    # length-last form: no early exit; the zip (which stops at the shorter side) is walked first and, once it is exhausted, the
+    # answer is `bytes.len() == self.len()`.  Same function: true exactly when the lengths agree and every zipped pair matched.
+    def exhausted(g):
+        return g[0] == "sw" and an.is_call(g[1][1], xlate.NEXT) and g[2] == "==" and g[3] == 0
+    length_last = False
+    if not early:
+        fin = [p for p in rets if p.ret not in (("int", 0, "bool"), ("int", 1, "bool"))]
+        length_last = len(fin) == 1 and fin[0].guards and all(exhausted(g) for g in fin[0].guards) and nf.cmp_nf(fin[0].ret, True) == eqg and \
+            not any(k == eqg[0] for p in rets + conts for k, _ in gset(p.guards))
+    okl = okl or length_last
+    chk.ob("G18", what, okl, "must return false when the byte length differs from the symbol count (before the element loop, or as the result once the zip is exhausted); paths: %s" % [p.describe()[:140] for p in rets][:4],
            b["span"], kind="guard-mismatch")
     trues = [p for p in rets if p.ret == ("int", 1, "bool")]
     # true only at loop exhaustion
-    okt = len(trues) == 1 and all(g[0] == "cmp" or (g[0] == "sw" and an.is_call(g[1][1], xlate.NEXT) and g[2] == "==" and g[3] == 0) for g in trues[0].guards)
+    okt = len(trues) == 1 and all(g[0] == "cmp" or exhausted(g) for g in trues[0].guards)
+    okt = okt or (length_last and not trues)
     # per element: decode the byte with try_from_ascii; None -> false; different -> false; equal -> continue
     oke = False
     if len(conts) == 1:
